@@ -282,7 +282,21 @@ class Renderer:
                 if nm and not re.search(r"(?<![\w'])%s\b" % re.escape(nm), selfty):
                     self.moved_generics.append(g.strip())
             if self.moved_generics:
-                self.moved_where = fn.impl.get("where_text", "")
+                # where-predicates that mention a moved parameter go with it; the others stay on the impl
+                names = [g.strip().split(":")[0].strip() for g in self.moved_generics]
+                preds = [x.strip() for x in split_top(re.sub(r"^\s*where\s*", "", fn.impl.get("where_text", ""))) if x.strip()]
+                mv = [x for x in preds if any(re.search(r"(?<![\w'])%s\b" % re.escape(nm), x) for nm in names)]
+                self.kept_where = [x for x in preds if x not in mv]
+                for x in mv:
+                    # `I: Hash + Eq + Deserialize<'de>`: the bounds that do not mention the moved parameter stay on the impl
+                    if ":" in x:
+                        lhs, rhs = x.split(":", 1)
+                        if not any(re.search(r"(?<![\w'])%s\b" % re.escape(nm), lhs) for nm in names):
+                            bs = [b.strip() for b in split_top(rhs.replace("+", ",")) if b.strip()]
+                            kb = [b for b in bs if not any(re.search(r"(?<![\w'])%s\b" % re.escape(nm), b) for nm in names)]
+                            if kb:
+                                self.kept_where.append("%s: %s" % (lhs.strip(), " + ".join(kb)))
+                self.moved_where = ("where " + ", ".join(mv)) if mv else ""
         self.assoc_types = {}
         if fn.impl is not None:
             # associated types: of this impl, else of any other trait impl for the same Self type
@@ -386,8 +400,21 @@ class Renderer:
         return self.render_children(n)
 
     # -- statements: anchors before/after the statement that contains a given call
+    def r_Arm(self, n):
+        saved, self.hoist = getattr(self, "hoist", []), []
+        head = self.render_children(n, n["s"], n["body"][0])
+        body = self.render_children(n, n["body"][0], n["body"][1])
+        tail = self.render_children(n, n["body"][1], n["e"])
+        h, self.hoist = self.hoist, saved
+        if h:
+            return head + "{ " + "".join(h) + body + " }" + tail
+        return head + body + tail
+
     def r_stmt(self, n):
+        saved, self.hoist = getattr(self, "hoist", []), []
         body = self.render_children(n)
+        h, self.hoist = self.hoist, saved
+        body = "".join(h) + body
         pre, post = "", ""
         # innermost statement containing the call gets the anchor
         for x in walk_tree(n):
@@ -502,7 +529,18 @@ class Renderer:
         k = str(n["ord"])
         out = self.render_children(n, n["s"], n["then"][0])
         then = self.block_of(n, n["then"])
-        out += self.render_block(then, self.stmt_text("if", k, "then_entry"), self.stmt_text("if", k, "then_exit"))
+        extra = ""
+        cond = self.find(n, n["cond"])
+        if cond["k"] == "LetExpr":
+            # R17: `if let Some(&x) = E {B}` -> `if let Some(__ref_x) = E { let x = *__ref_x; B }` (reference pattern = copy out)
+            ptxt = self.t(cond["pat"])
+            m = re.match(r"^Some\(\s*&\s*(\w+)\s*\)$", ptxt.strip())
+            if m:
+                x = m.group(1)
+                out = out.replace(ptxt, "Some(__ref_%s)" % x, 1)
+                extra = "let %s = *__ref_%s;\n" % (x, x)
+                self.log.append("R17 reference pattern Some(&%s) -> explicit dereference" % x)
+        out += self.render_block(then, extra + self.stmt_text("if", k, "then_entry"), self.stmt_text("if", k, "then_exit"))
         if "else" in n:
             out += self.t(n["then"][1], n["else"][0])
             els = self.find(n, n["else"])
@@ -529,6 +567,9 @@ class Renderer:
         for d in self.rw.get("into_iter", []):
             if d[0] in ("*", str(k)) and d[1] == "plain":
                 return ""
+            if d[0] in ("*", str(k)) and d[1] == "ref_iter":
+                # `for x in &map` : IntoIterator for &IndexMap is `.iter()` (indexmap), stub method
+                return "crate::__ref_iter"
         return "::core::iter::IntoIterator::into_iter"
 
     # -- nested items (use declarations inside bodies)
@@ -664,7 +705,9 @@ class Renderer:
         kbody = self.render(self.find(keyc, keyc["body"]))
         self.log.append("R3 [..].iter()%s.%s(..) -> unrolled fold over %d candidates" % (".map_while(..)" if mapwhile else "", m, len(elems)))
         uid = "%d" % n["s"]
-        out = ["{ let __a = [%s];\n let mut __best = None;\n let mut __go = true;\n" % ", ".join(elems)]
+        # the candidate array is hoisted in front of the enclosing statement / match arm (it must outlive the references)
+        self.hoist.append("let __a = [%s];\n" % ", ".join(elems))
+        out = ["{ let mut __best = None;\n let mut __go = true;\n"]
         keep_b = "::core::cmp::Ordering::Greater => Some(__y), _ => Some(__b)" if m == "min_by_key" else "::core::cmp::Ordering::Greater => Some(__b), _ => Some(__y)"
         for j in range(len(elems)):
             if mapwhile is not None:
@@ -929,8 +972,7 @@ def generate(outdir):
             if r.moved_generics:
                 keep = [g.strip() for g in split_top(gen[1:-1]) if g.strip() not in r.moved_generics]
                 gen = "<" + ", ".join(keep) + ">"
-                where = ""
-                im = dict(im, where_text="")
+                im = dict(im, where_text=("where " + ", ".join(r.kept_where)) if r.kept_where else "")
             if "'_" in ty:
                 # anonymous impl lifetime -> named (same meaning); lets `Self::Item` of the sibling impl resolve
                 ty = ty.replace("'_", "'a")
@@ -959,17 +1001,18 @@ def generate(outdir):
 
     # ---- assemble
     out = []
-    for f in ("prelude.vrs", "indexmap_stub.vrs", "specs.vrs"):
+    for f in ("prelude.vrs", "indexmap_stub.vrs", "serde_stub.vrs", "specs.vrs"):
         out.append("// ===== contracts/%s =====\n" % f + open(os.path.join(VERIF, "contracts", f)).read())
     out.append("verus! {\n")
-    tree = {}
-    for _, mod in FILES:
-        node = tree
-        for part in mod.split("::"):
-            node = node.setdefault(part, {})
     struct_by_mod = {}
     for src, mod, it in structs:
         struct_by_mod.setdefault(mod, []).append(struct_text(src, it, it["name"] in ("Index", "Position")))
+    tree = {}
+    allmods = [m for _, m in FILES] + list(by_mod) + list(struct_by_mod)
+    for mod in allmods:
+        node = tree
+        for part in mod.split("::"):
+            node = node.setdefault(part, {})
 
     def emit(path, node, depth):
         mod = "::".join(path)
@@ -990,7 +1033,7 @@ def generate(outdir):
     for name, child in tree.items():
         emit([name], child, 0)
     for mod in mods_extra:
-        if mod not in [m for _, m in FILES] and mod != "root":
+        if mod not in allmods and mod != "root":
             die("overlay: module text for unknown module " + mod)
     for line in mods_extra.get("root", []):
         out.append(line + "\n")
